@@ -347,13 +347,13 @@ class FilterStream(ModelStream):
                     if thorough and full1 or (full1 and rng.chance(22)) or (not full1 and rng.chance(2)):
                         out.append({"f": f, "l": l, "a": [a], "k": 0})
             if mx >= 2:
-                n2 = ctx.scale(300, 12000)
+                n2 = ctx.scale(300, 4000)
                 for _ in range(n2):
                     a = [rng.choice(classes), rng.choice(classes)]
                     if ok(f, a):
                         out.append({"f": f, "l": rng.choice(classes), "a": a, "k": 0})
             if mx >= 3 or mn >= 2:
-                for _ in range(ctx.scale(150, 3000)):
+                for _ in range(ctx.scale(150, 1500)):
                     a = [rng.choice(classes) for _ in range(3)]
                     if ok(f, a):
                         out.append({"f": f, "l": rng.choice(classes), "a": a, "k": 0})
@@ -363,7 +363,7 @@ class FilterStream(ModelStream):
                 if ok(f, a):
                     out.append({"f": f, "l": rng.choice(classes), "a": a, "k": 0})
             # random members of the classes
-            for _ in range(ctx.scale(60, 800)):
+            for _ in range(ctx.scale(60, 400)):
                 a = [rng.choice(classes) for _ in range(rng.range(0, max(mx, 1)))]
                 if ok(f, a):
                     out.append({"f": f, "l": rng.choice(classes), "a": a, "k": rng.range(1, 1 << 30)})
@@ -566,7 +566,7 @@ class RenderStream(Stream):
     def cases(self, ctx):
         rng = ctx.rng_for("render")
         out = []
-        for i in range(ctx.scale(1500, 25000)):
+        for i in range(ctx.scale(1500, 15000)):
             prog = gen_program(rng.fork(str(i)))
             # sprinkle values of the awkward classes over the data
             r2 = rng.fork("v" + str(i))
@@ -642,7 +642,7 @@ class ParseStream(Stream):
     def cases(self, ctx):
         rng = ctx.rng_for("parse")
         out = []
-        n = ctx.scale(1500, 20000)
+        n = ctx.scale(1500, 10000)
         alphabet = ["{{", "}}", "{%", "%}", "-", "|", ":", ",", ".", "[", "]", "(", ")", "..", "'", '"', " ", "\n", "if", "endif", "for", "in", "x", "1", "1.5", "==", "and", "or", "not", "contains", "liquid", "raw", "endraw", "comment", "#", "\\", "\x00", "\ud800", "é", "%(x)d", "9" * 30, "assign", "=", "echo", "case", "when", "else", "tablerow", "cycle", "include", "render", "with", "macro", "call", "extends", "block", "translate", "plural"]
         for i in range(n):
             r = rng.fork(str(i))
